@@ -17,7 +17,7 @@
  Descriptors: a side holding MORE entry files open than the spec's open set is reported under
  its own key (writer-entry-fd-leak / reader-entry-fd-leak) and does not mask the validation of
  the state machines."""
-import os, json, re, glob
+import os, json, re, glob, time
 import vlib
 
 ASSUMPTIONS = [
@@ -36,7 +36,7 @@ WORKERS = min(8, vlib.NCPU)
 
 
 def _fdx(out):
-    m = re.findall(r'"FDX (\d+) (\d+) (\d+) (\d+)"', out)
+    m = re.findall(r'"FDX (-?\d+) (-?\d+) (-?\d+) (-?\d+) (-?\d+) (-?\d+)"', out)
     return tuple(int(x) for x in m[-1]) if m else None
 
 
@@ -73,8 +73,24 @@ def _judge(files, res, v, cov, measured=None):
             i = r["hw"] - 1
             bad = ev[i] if i < len(ev) else {}
             key = "tv-%s-%s" % (bad.get("e"), bad.get("cls") or bad.get("res", ""))
-            v.violation(key, "recorded archive execution is not a behaviour of Archive: " + vlib.explain_rejection(f, r["hw"]),
-                        {"run": vlib.run_of(ev, min(i, len(ev) - 1)), "rejected_event": bad})
+            run = vlib.run_of(ev, min(i, len(ev) - 1))
+            limit = str(run[0].get("kind", "")).startswith("limit")
+            # running out of descriptors is the visible end of a descriptor leak: same key as the leak
+            if bad.get("cls") == "emfile" and bad.get("e") == "wr":
+                key = "writer-entry-fd-leak"
+            elif bad.get("cls") == "emfile" and bad.get("e") == "scan":
+                key = "scan-dir-fd-leak"
+            txt = "recorded archive execution is not a behaviour of Archive: "
+            if limit:
+                txt = "with RLIMIT_NOFILE=64 a tree of %s entries is not transferred (%s)" % (run[0].get("entries"), bad.get("msg") or bad.get("cls"))
+                if measured and key == "writer-entry-fd-leak":
+                    txt += "; descriptors held by archiveFileWriter with the collector off: " + ", ".join(
+                        "%d files -> peak %d, %d after Close()" % (measured.get("many%d_files" % n, 0), measured.get("many%d_wfds_peak" % n, 0),
+                                                                   measured.get("many%d_wfds_after_close" % n, 0))
+                        for n in (50, 100, 300) if ("many%d_files" % n) in measured)
+                txt += ": "
+            v.violation(key, txt + vlib.explain_rejection(f, r["hw"]),
+                        {"run": run, "rejected_event": bad, "nofile": 64 if limit else 0, "gcoff": limit})
             nrej += 1
         if fx:
             for side, idx, line in (("w", 0, 2), ("r", 1, 3)):
@@ -85,8 +101,22 @@ def _judge(files, res, v, cov, measured=None):
                     if cur is None or len(run) < len(cur["run"]):
                         leak[side] = {"run": run, "first_excess_event": ev[fx[line] - 1], "max_excess_in_file": fx[idx]}
                     leak[side]["max_excess"] = max(fx[idx], (cur or {}).get("max_excess", 0))
-    cov["fd_excess_writer_max"] = max([(_fdx(r["out"]) or (0, 0))[0] for r in res] + [0])
-    cov["fd_excess_reader_max"] = max([(_fdx(r["out"]) or (0, 0))[1] for r in res] + [0])
+    cov["fd_excess_writer_max"] = max([(_fdx(r["out"]) or (0, 0))[0] for r in res] + [cov.get("fd_excess_writer_max", 0)])
+    cov["fd_excess_reader_max"] = max([(_fdx(r["out"]) or (0, 0))[1] for r in res] + [cov.get("fd_excess_reader_max", 0)])
+    scan = None
+    for f, r in zip(files, res):
+        fx = _fdx(r["out"])
+        if fx and fx[4] > 0 and r["hw"] is None:
+            ev = vlib.read_ndjson(f)
+            run = vlib.run_of(ev, fx[5] - 1)
+            if scan is None or fx[4] > scan["max"]:
+                scan = {"max": fx[4], "run": run, "event": ev[fx[5] - 1]}
+    cov["scan_dir_handles_left_open_max"] = max(scan["max"] if scan else 0, cov.get("scan_dir_handles_left_open_max", 0))
+    if scan:
+        ndirs = 1 + sum(1 for e in scan["run"] if e.get("e") == "entry" and e.get("dir"))
+        v.violation("scan-dir-fd-leak", "checkPathsReadable leaves every directory it listed open (no Close after Readdir): %d directory "
+                    "handles below the source are still open when it has returned from a tree with %d directories" % (scan["max"], ndirs),
+                    {"run": scan["run"], "scan_event": scan["event"], "gcoff": True})
     if leak["w"]:
         txt = ("archiveFileWriter holds more than one entry file open: descriptors below the destination exceed the "
                "spec's open set by up to %d" % leak["w"]["max_excess"])
@@ -157,8 +187,14 @@ def _selftests(files, cov):
 
 
 def run(tier, v):
-    cov = {"samples": []}
+    cov = {"samples": [], "phase_wall_s": {}}
     quick = tier == "quick"
+    t0 = [time.time()]
+
+    def phase(name):
+        cov["phase_wall_s"][name] = round(time.time() - t0[0], 1)
+        vlib.log("phase %s: %.1fs" % (name, time.time() - t0[0]))
+        t0[0] = time.time()
     # ------------------------------------------------------------------ 1. design
     rc = vlib.tlc("Archive", "Archive_cov.cfg", timeout=900, heap="4g", workers=WORKERS, coverage=True)
     r = vlib.tlc("Archive", "Archive_quick.cfg", timeout=1500, heap="8g", workers=WORKERS)
@@ -185,6 +221,7 @@ def run(tier, v):
     cov["exhaustive"] = True
     cov["model_constants"] = {c: open(os.path.join(vlib.VERIF, "spec", c)).read() for c, _ in runs}
 
+    phase("tlc_design")
     h = vlib.build_harness(["c15"])
     # ------------------------------------------------------------------ 2. spec -> impl
     g = vlib.tlc("ArchiveGen", "ArchiveGen_quick.cfg", timeout=1200, heap="8g", workers=WORKERS)
@@ -195,7 +232,7 @@ def run(tier, v):
     if quick:   # quick replays every third exported behaviour (offset by the seed), thorough all of them
         cases = cases[vlib.seed() % 3::3]
     cov["mbt_cases_exhaustive"] = len(cases)
-    for cfg, num in (("ArchiveGen_sim0.cfg", 500 if quick else 12000), ("ArchiveGen_sim.cfg", 300 if quick else 6000)):
+    for cfg, num in (("ArchiveGen_sim0.cfg", 300 if quick else 12000), ("ArchiveGen_sim.cfg", 200 if quick else 6000)):
         g2 = vlib.tlc("ArchiveGen", cfg, workers=1, timeout=1500, heap="4g", simulate="num=%d" % num, depth=250,
                       extra_args=["-seed", str(vlib.seed())])
         if g2["violated"]:
@@ -204,11 +241,13 @@ def run(tier, v):
     cov["mbt_cases_simulated"] = len(cases) - cov["mbt_cases_exhaustive"]
     if len(cases) < 1000:
         raise vlib.Infra("MBT export produced only %d cases" % len(cases))
+    phase("mbt_export")
     mdir = os.path.join(vlib.scratch(), "c15mbt")
     os.makedirs(mdir, exist_ok=True)
     cpath = os.path.join(mdir, "cases.ndjson")
     _write_ndjson(cpath, cases)
     m = vlib.run_driver(h, "c15_mbt", mdir, {"cases": cpath, "procs": 8}, timeout=3000)
+    phase("mbt_replay")
     if m.get("shards_crashed"):
         raise vlib.Infra("c15_mbt: %d shard(s) crashed" % m["shards_crashed"])
     mism = []
@@ -231,22 +270,30 @@ def run(tier, v):
     # ------------------------------------------------------------------ 3. impl -> spec
     out = os.path.join(vlib.scratch(), "c15tv")
     params = {"procs": 8, "shards": 2, "small": 640, "large": 8, "shrink": 240} if quick else \
-             {"procs": 8, "shards": 2, "small": 12000, "large": 100, "shrink": 3000}
+             {"procs": 8, "shards": 2, "small": 6000, "large": 60, "shrink": 2000}
     s = vlib.run_driver(h, "c15_tv", out, params, timeout=3000)
     if s.get("shards_crashed"):
         raise vlib.Infra("c15_tv: %d shard(s) crashed" % s["shards_crashed"])
     files = sorted(glob.glob(os.path.join(out, "shard-*", "trace-*.ndjson")))
     files = [f for f in files if os.path.getsize(f) > 0]
     res = vlib.validate_traces("ArchiveTrace", "ArchiveTrace.cfg", files, timeout=3000, heap="3g")
+    # trees with more entries than the open-file limit (own process: RLIMIT_NOFILE = 64)
+    lout = os.path.join(vlib.scratch(), "c15lim")
+    ls = vlib.run_driver(h, "c15_limits", lout, {"n": 300, "nofile": 64}, timeout=600)
+    lfiles = [os.path.join(lout, "trace-00.ndjson"), os.path.join(lout, "trace-01.ndjson")]
+    lres = vlib.validate_traces("ArchiveTrace", "ArchiveTrace.cfg", lfiles, timeout=900, heap="3g")
+    phase("trace_validation")
     measured = {k: x for k, x in s.items() if k.startswith("many")}
-    nrej = _judge(files, res, v, cov, measured)
+    cov["limit_runs"] = {k: x for k, x in ls.items() if k in ("nofile", "scan_err", "scan_entries", "scan_dirfds", "xfer_setup_err", "eof_runs", "wr_calls")}
+    nrej = _judge(lfiles, lres, v, cov, measured)
+    nrej += _judge(files, res, v, cov, measured)
     if mbt_leak_case is not None and not any(k == "writer-entry-fd-leak" for k, _, _ in v.violations) \
             and "writer-entry-fd-leak" not in v.known_hit:
         v.violation("writer-entry-fd-leak", "archiveFileWriter holds more entry files open than the model (MBT replay)",
                     {"case": mbt_leak_case, "measured": measured})
-    cov["traces_validated_against_impl"] = s["runs"] + m["replayed"]
-    cov["recorded_runs"] = s["runs"]
-    cov["trace_events"] = s["events"]
+    cov["traces_validated_against_impl"] = s["runs"] + ls["runs"] + m["replayed"]
+    cov["recorded_runs"] = s["runs"] + ls["runs"]
+    cov["trace_events"] = s["events"] + ls["events"]
     cov["trace_files_rejected"] = nrej
     cov["tv_states"] = sum(x["distinct"] for x in res)
     cov["recorded"] = {k: s[k] for k in ("rd_calls", "wr_calls", "wr_short", "resizes", "eof_runs", "err_runs", "bytes", "large_entries") if k in s}
@@ -254,6 +301,7 @@ def run(tier, v):
     ev0 = vlib.read_ndjson(files[0])
     cov["samples"].append({"recorded_run": vlib.run_of(ev0, 0)[:16]})
     _selftests(files, cov)
+    phase("selftests")
     return cov
 
 
@@ -280,7 +328,7 @@ def replay(path, v):
     os.makedirs(out, exist_ok=True)
     rpath = os.path.join(out, "run.ndjson")
     _write_ndjson(rpath, rp["run"])
-    s = vlib.run_driver(h, "c15_replay", out, {"run": rpath, "gcoff": bool(rp.get("gcoff"))})
+    s = vlib.run_driver(h, "c15_replay", out, {"run": rpath, "gcoff": bool(rp.get("gcoff")), "nofile": int(rp.get("nofile") or 0)})
     f = os.path.join(out, "trace-00.ndjson")
     res = vlib.validate_traces("ArchiveTrace", "ArchiveTrace.cfg", [f], timeout=900)
     print("replayed %d events; descriptors below the destination peaked at %s, below the source at %s" %
